@@ -722,7 +722,17 @@ func buildBody(r *mon.Rand, id uint64, L int, chunked bool, chunks []int, stop i
 			w.WriteString("\r\n")
 			b = b[n:]
 		}
-		w.WriteString("0\r\n\r\n")
+		switch r.Intn(12) {
+		case 0:
+			// line ends of the last-chunk / trailer section as a bare LF: the server's own
+			// reader takes them (the body ends there when the handler reads it to the end),
+			// so that is where it ends for a handler that stops early, too
+			w.WriteString("0\r\n\n")
+		case 1:
+			w.WriteString("0\r\nX-T: 1\n\r\n")
+		default:
+			w.WriteString("0\r\n\r\n")
+		}
 	} else {
 		fmt.Fprintf(&w, "POST /body-%d HTTP/1.1\r\nHost: x\r\nContent-Length: %d\r\n\r\n", id, L)
 		w.Write(body)
